@@ -479,3 +479,38 @@ def phi_defs(body, operand, depth=0):
         else:
             return [(dbb, o)]
     return [(None, o)]
+
+
+def flows_to_return(body, start_local, extra_calls=()):
+    """forward slice: does the value held by `start_local` reach the return place _0 through moves, copies,
+    aggregate fields, references and the calls that merely hand a value on (?, From/Into, from_residual, map_err ..)"""
+    HAND_ON = ("Try::branch", "FromResidual::from_residual", "From::from", "Into::into", "Result::map_err", "Box::new") + tuple(extra_calls)
+    taint = {start_local}
+    changed = True
+    while changed:
+        changed = False
+        for i in body.live_blocks():
+            blk = body.blocks[i]
+            for st in blk["stmts"]:
+                if st.get("k") != "assign":
+                    continue
+                rv = st["rv"]
+                ops = []
+                for k in ("op", "l", "r", "x"):
+                    o = rv.get(k)
+                    if isinstance(o, dict):
+                        ops.append(o)
+                for f in rv.get("fields", []):
+                    ops.append(f["op"])
+                src = [o["place"]["l"] for o in ops if o.get("k") in ("copy", "move")]
+                if "place" in rv:
+                    src.append(rv["place"]["l"])
+                if any(x in taint for x in src) and st["place"]["l"] not in taint:
+                    taint.add(st["place"]["l"])
+                    changed = True
+            t = blk["term"]
+            if t["k"] == "call" and any((callee_def(t) or "").endswith(h) for h in HAND_ON):
+                if any(a.get("k") in ("copy", "move") and a["place"]["l"] in taint for a in t["args"]) and t["dest"]["l"] not in taint:
+                    taint.add(t["dest"]["l"])
+                    changed = True
+    return 0 in taint
